@@ -7,10 +7,10 @@
    Executable definitions only.
 
    Mirrors the code after the repairs
-     4a138e3 fix: CreateCertificateRequest signs with PSS options ...
-     9dbfbd4 fix: CheckSignatureFromKey rejects a signature algorithm that does
+     dab9c03 fix: CreateCertificateRequest signs with PSS options ...
+     84040cf fix: CheckSignatureFromKey rejects a signature algorithm that does
              not match the type of the public key
-     ffdd286 fix: ... trailing data after an ECDSA signature for *AugmentedECDSA
+     db01bcc fix: ... trailing data after an ECDSA signature for *AugmentedECDSA
    The pre-repair behaviour is kept as [csr_pss_unfixed] / [check_sig_unfixed]
    for the refutation witnesses.
 
@@ -158,7 +158,7 @@ Definition sign_opts (x509_tbl ocsp_tbl : list detail) (a : api) (k : keytype) (
       end
   end.
 
-(* CreateCertificateRequest before 4a138e3: PSS identifier, PKCS #1 v1.5 signature *)
+(* CreateCertificateRequest before dab9c03: PSS identifier, PKCS #1 v1.5 signature *)
 Definition csr_pss_unfixed (x509_tbl : list detail) (k : keytype) (requested : N)
   : option (oid * params * N * pad) :=
   match signing_params true true x509_tbl k requested with
@@ -258,7 +258,7 @@ Section Check.
              end
     end.
 
-  (* before 9dbfbd4: the key type alone selected the primitive *)
+  (* before 84040cf: the key type alone selected the primitive *)
   Definition check_sig_unfixed (a : N) (k : Key) (m : Msg) (s : Sig) : check_result :=
     match check_switch a with
     | SwInsecure => RInsecure
